@@ -39,36 +39,36 @@ pub fn prefix_touches_link(model: &Model, base: &str, expr: &str, rooted: bool) 
     };
     let (prefix, _) = glob.partition();
     let prefix = prefix.to_string_lossy().into_owned();
-    let world: Option<String> = if rooted {
-        prefix
-            .strip_prefix(DUMMY_ROOT)
-            .map(|r| r.trim_matches('/').to_string())
+    // components of the prefix below the directory the glob is anchored at
+    let (mut cur, comps): (String, Vec<String>) = if rooted {
+        match prefix.strip_prefix(DUMMY_ROOT) {
+            Some(r) => (String::new(), r.split('/').filter(|c| !c.is_empty()).map(String::from).collect()),
+            None => return true,
+        }
     }
     else {
-        crate::exec::to_world(&join(&format!("{}/{}", R, base), &prefix).replace("//", "/"), "")
+        (base.to_string(), prefix.split('/').filter(|c| !c.is_empty() && *c != ".").map(String::from).collect())
     };
-    let Some(world) = world
-    else {
-        return true;
-    };
-    // the base itself may be a link to a directory (the caller chose it as the place to walk;
-    // walking it is not "descending into a linked directory"): only components below it count
-    // (dot-prefixed globs leave the base; they are never drawn from a link base, so everything on
-    // their prefix counts)
-    let dotted = expr.split('/').next().map_or(false, |c| c == "." || c == "..");
-    let mut p: &str = &world;
-    loop {
-        if !rooted && !dotted && (p == base || !is_below(p, base)) {
-            return false;
+    // The base itself may be a link to a directory (the caller chose it as the place to walk;
+    // walking it is not "descending into a linked directory"): only what the prefix adds counts.
+    for c in comps {
+        if c == ".." {
+            // dot-prefixed globs are only drawn from plain directories
+            cur = parent(&cur).to_string();
+            continue;
         }
-        if matches!(model.get(p), Some(i) if matches!(i.kind, Kind::Link { .. })) {
-            return true;
+        cur = join(&cur, &c);
+        match model.resolve(&cur, false) {
+            Ok(node) => {
+                if matches!(model.get(&node), Some(i) if matches!(i.kind, Kind::Link { .. })) {
+                    return true;
+                }
+            },
+            // a prefix that does not exist touches nothing
+            Err(_) => return false,
         }
-        if p.is_empty() {
-            return false;
-        }
-        p = parent(p);
     }
+    false
 }
 
 /// All-or-nothing over entered directories, judged on the closure-free feed (tap at position 0):
